@@ -462,7 +462,7 @@ static void run_rows(vh::Trace& tr, int tier, int only, vh::Rng& rng, const std:
     int nh = 0;
     auto maybe_open = [&] { if (nh % per_block == 0) rec.open(f, ++id); ++nh; };
     if (f.impl == "FromFile") {
-      const int nmask = tier > 0 ? 32 : f.quick_masks;
+      const int nmask = tier > 0 ? 16 : f.quick_masks;
       for (int k = 0; k < nmask; ++k) {
         const int mask = nmask == 32 ? k : (k == 0 ? 31 : frng.range(0, 31));
         for (int mode = 0; mode < 3; ++mode) {
@@ -477,8 +477,8 @@ static void run_rows(vh::Trace& tr, int tier, int only, vh::Rng& rng, const std:
     maybe_open(); rec.full_pass(f, sw_from_bits(31), true, true, 1);
     if (f.passes > 1) { maybe_open(); rec.full_pass(f, sw_from_bits(31), true, !f.all_mode, f.geoms.size() > 1 ? 2 : 1); }
     // requested switch settings x cache disabled / basic bins only / everything
-    const int len = tier > 0 ? 110 : 80;
-    const int nmask = tier > 0 ? 32 : f.quick_masks;
+    const int len = tier > 0 ? 100 : 80;
+    const int nmask = tier > 0 ? (f.quick_masks == 32 ? 32 : 16) : f.quick_masks;
     for (int k = 0; k < nmask; ++k) {
       // all 32 settings, or a seeded selection that always contains "everything on"
       const int mask = nmask == 32 ? k : (k == 0 ? 31 : frng.range(0, 31));
